@@ -682,13 +682,19 @@ Definition cover_sub (c : gctx) (s : osub) : list mode :=
 Definition sub_respects_modes (s : osub) : bool :=
   forallb (fun m => negb (is_neg m)) (os_pos s) && forallb is_neg (os_neg s).
 
+(* the value of additionalProperties: false, the empty schema {} (falsy in Python, forbids nothing),
+   or true / a non-empty schema *)
+Inductive addl := AddlFalse | AddlEmptySchema | AddlOther.
+Definition addl_falsy (a : addl) : bool := match a with AddlOther => false | _ => true end.      (* not value *)
+Definition addl_forbids (a : addl) : bool := match a with AddlFalse => true | _ => false end.    (* JSON Schema *)
+
 (* the object/array keys of cover_schema_iter that wrap or build negative values, in dict order *)
 Inductive okey :=
 | OKProperties (subs : list osub)          (* coverage.py:354 -> _negative_properties (780-792) *)
 | OKPatternProperties (subs : list osub)   (* coverage.py:357 -> _negative_pattern_properties (795-810) *)
 | OKItems (sub : osub)                     (* coverage.py:360 -> _negative_items (813-821) *)
 | OKRequired (n : nat)                     (* coverage.py:437 -> _negative_required (865-874) *)
-| OKAdditionalFalse.                       (* coverage.py:440-451 *)
+| OKAdditional (a : addl).                 (* coverage.py:440-451: "not value", type object *)
 Inductive wrapper := WProperty (i : nat) | WPatternProperty (i : nat) | WItems | WRequired (i : nat) | WAdditional.
 (* a yielded value: its label, how it was built, and the label of the sub-schema value it wraps
    (None = structural: a property removed / an undeclared property added) *)
@@ -706,7 +712,7 @@ Definition object_key_negatives (c : gctx) (k : okey) : list oitem :=
   | OKPatternProperties subs => wrap_all c WPatternProperty subs
   | OKItems sub => map (fun m => {| oi_label := Neg; oi_via := WItems; oi_sub := Some m |}) (cover_sub (with_negative_ctx c) sub)
   | OKRequired n => map (fun i => {| oi_label := Neg; oi_via := WRequired i; oi_sub := None |}) (seq 0 n)
-  | OKAdditionalFalse => [{| oi_label := Neg; oi_via := WAdditional; oi_sub := None |}]
+  | OKAdditional a => if addl_falsy a then [{| oi_label := Neg; oi_via := WAdditional; oi_sub := None |}] else []
   end.
 (* the negative block of cover_schema_iter restricted to these keys (coverage.py:340) *)
 Definition object_negatives (c : gctx) (keys : list okey) : list oitem :=
